@@ -2,12 +2,19 @@
    Print Assumptions under each.  Written by tools/mkprops.py at development time; committed. *)
 From Verif Require Import Base.Bytes Model.Headers Model.Requirements Model.Validate.
 From Coq Require Import List Bool NArith ZArith Lia.
+From Coq Require Import Sorting.Permutation Sorting.Sorted.
 From Coq Require Import Strings.Byte.
 From Verif Require Import Base.Bytes Base.Hex Base.Utf8 Crypto.Hmac Time.Calendar Time.Iso8601 Time.Render.
+From Verif Require Import Generated.SrcConsts Model.Errors Model.Uri Model.Query Model.Headers Model.Labels Model.Requirements Model.Validate.
+From Verif Require Import Spec.PathSpec Spec.QuerySpec Spec.Signer Spec.RequestSpec.
+From Verif Require Import Proofs.PathProofs Proofs.QueryProofs Proofs.HeaderProofs Proofs.KeyProofs Proofs.ReqProofs.
+From Verif Require Import Proofs.PipelineProofs Proofs.SelectionProofs.
+From Verif Require Proofs.AuthProofs Proofs.IsoProofs.
+From Verif Require Import Proofs.SoundnessProofs.
 From Verif Require Import Generated.SrcConsts Model.Errors Model.Uri Model.Query Model.Headers Model.Labels Model.Requirements Model.Validate Spec.PathSpec Spec.QuerySpec Spec.Signer Spec.RequestSpec.
 From Verif Require Import Proofs.QueryProofs Proofs.HeaderProofs.
 From Verif Require Proofs.KeyProofs Crypto.Sha256.
-From Verif Require Import Proofs.ReqProofs Proofs.PipelineProofs.
+From Verif Require Import Proofs.ReqProofs Proofs.CompletenessProofs Proofs.PipelineProofs.
 
 Theorem C05_add_name_denotes :
   forall l h n, denotes (add_name l h) n = denotes l n || bytes_eqb (lower n) (lower h).
@@ -39,6 +46,61 @@ Theorem C05_reqs_ok_meaning :
   /\ (forall p k vs, In p (prefixes r) -> In (k, vs) hm -> starts_with (lower p) k = true -> In k signed).
 Proof. exact ReqProofs.C05_reqs_ok_meaning. Qed.
 Print Assumptions C05_reqs_ok_meaning.
+
+Theorem C05_reqs_ok_raw :
+  forall rs hs signed,
+  reqs_ok rs (normalize_headers hs) signed = true <-> requirements_met rs hs signed.
+Proof. exact CompletenessProofs.C05_reqs_ok_raw. Qed.
+Print Assumptions C05_reqs_ok_raw.
+
+Theorem C05_accept_implies_requirements :
+  forall (H : bytes -> bytes), forall rq cf pv calls p b pr se,
+    validate H rq cf pv = (calls, Accepted p b pr se) ->
+    exists ap,
+      presented_params H rq cf = Some ap
+      /\ (In (s2b "host") (ap_signed ap) \/ In (s2b ":authority") (ap_signed ap))
+      /\ (forall a, In a (always_present (cf_reqs cf)) -> In (lower a) (ap_signed ap))
+      /\ (forall c, In c (if_in_request (cf_reqs cf)) -> values_of (lower c) (rq_headers rq) <> [] ->
+                    In (lower c) (ap_signed ap))
+      /\ (forall p n v, In p (prefixes (cf_reqs cf)) -> In (n, v) (rq_headers rq) ->
+                        starts_with (lower p) (lower n) = true -> In (lower n) (ap_signed ap)).
+Proof. exact CompletenessProofs.C05_accept_implies_requirements. Qed.
+Print Assumptions C05_accept_implies_requirements.
+
+Theorem C05_violation_refused_403 :
+  forall (H : bytes -> bytes), forall rq cf pv cr pts body ap,
+    from_request_parts H rq cf = Ok (cr, pts, body) ->
+    carrier_params cr = Ok ap ->
+    ~ c05_conjunction rq cf (ap_signed ap) ->
+    validate H rq cf pv = ([], Refused SignatureDoesNotMatch)
+    /\ status SignatureDoesNotMatch = Some 403%N.
+Proof. exact CompletenessProofs.C05_violation_refused_403. Qed.
+Print Assumptions C05_violation_refused_403.
+
+Theorem C05_requirements_pass :
+  forall (H : bytes -> bytes), forall rq cf cr pts body ap,
+    from_request_parts H rq cf = Ok (cr, pts, body) ->
+    carrier_params cr = Ok ap ->
+    c05_conjunction rq cf (ap_signed ap) ->
+    presented_params H rq cf = Some ap.
+Proof. exact CompletenessProofs.C05_requirements_pass. Qed.
+Print Assumptions C05_requirements_pass.
+
+Theorem C05_requirement_extensional :
+  forall (H : bytes -> bytes), forall rq cf rs' pv,
+    abs_eq (abs_of (cf_reqs cf)) (abs_of rs') ->
+    validate H rq (with_reqs cf rs') pv = validate H rq cf pv.
+Proof. exact CompletenessProofs.C05_requirement_extensional. Qed.
+Print Assumptions C05_requirement_extensional.
+
+Theorem C05_requirement_case_insensitive :
+  forall (H : bytes -> bytes), forall rq cf rs' pv,
+    same_spelling (always_present (cf_reqs cf)) (always_present rs') ->
+    same_spelling (if_in_request (cf_reqs cf)) (if_in_request rs') ->
+    same_spelling (prefixes (cf_reqs cf)) (prefixes rs') ->
+    validate H rq (with_reqs cf rs') pv = validate H rq cf pv.
+Proof. exact CompletenessProofs.C05_requirement_case_insensitive. Qed.
+Print Assumptions C05_requirement_case_insensitive.
 
 Theorem C13_requirements :
   forall (H : bytes -> bytes), forall rq cf pv cr pts body ap,
